@@ -1517,3 +1517,276 @@ Proof.
     [vm_compute; try reflexivity; lia..|vm_compute; lia].
 Qed.
 Close Scope string_scope.
+
+(* ================= 7. clause 6: a value that does not convert to the declared type -> ValueError ================= *)
+(* a stored raw value that the conversion of its argument / option rejects *)
+Definition bad_arg (f : fmt) (n : str) (v : rawarg) : Prop :=
+  has_argument f (AName n) true = true /\
+  exists a, get_argument f (AName n) true = Ok a /\
+    match v with
+    | RStr s => a_multi a = false /\ exists k, parse_typed (a_type a) (a_nullable a) (VStr s) = Err k
+    | RList l => a_multi a = true /\ exists s k, In s l /\ parse_typed (a_type a) (a_nullable a) (VStr s) = Err k
+    | RCmd _ => False
+    end.
+Definition bad_opt (f : fmt) (n : str) (v : rawopt) : Prop :=
+  has_option f n true = true /\
+  exists o, get_option f n true = Ok o /\
+    match v with
+    | OStr s => o_multi o = false /\ o_accepts o = true /\
+                exists k, parse_typed (o_type o) (o_nullable o) (VStr s) = Err k
+    | OList l => o_multi o = true /\ exists s k, In s l /\ parse_typed (o_type o) (o_nullable o) (VStr s) = Err k
+    | _ => False
+    end.
+
+Lemma parse_each_bad t nl s k : forall l, In s l -> parse_typed t nl (VStr s) = Err k ->
+  exists k', parse_each t nl l = Err k'.
+Proof.
+  induction l as [|x r IH]; intros Hin He; [contradiction|]. cbn [parse_each].
+  destruct (parse_typed t nl (VStr x)) as [v|k1] eqn:E; cbn [bind]; [|eauto].
+  destruct Hin as [->|Hin]; [congruence|]. destruct (IH Hin He) as [k' ->]. cbn [bind]. eauto.
+Qed.
+
+Lemma set_argument_bad f a0 n v : bad_arg f n v -> exists k, set_argument f a0 n v = Err k.
+Proof.
+  intros (_ & a & Hg & Hv). unfold set_argument. rewrite Hg. cbn [bind].
+  destruct v as [s|l|c]; [| |contradiction].
+  - destruct Hv as (-> & k & Hk). cbn [parse_raw_arg]. rewrite Hk. cbn [bind]. eauto.
+  - destruct Hv as (-> & s & k & Hin & Hk). destruct (parse_each_bad _ _ _ _ l Hin Hk) as [k' ->]. cbn [bind]. eauto.
+Qed.
+Lemma set_arguments_bad f n v : bad_arg f n v -> forall l a0, In (n, v) l -> exists k, set_arguments f a0 l = Err k.
+Proof.
+  intros Hb. induction l as [|[n0 v0] r IH]; intros a0 Hin; [contradiction|]. cbn [set_arguments].
+  destruct Hin as [Heq|Hin].
+  - inversion Heq; subst. destruct Hb as [Hh Hb']. rewrite Hh.
+    destruct (set_argument_bad f a0 n v (conj Hh Hb')) as [k ->]. cbn [bind]. eauto.
+  - destruct (has_argument f (AName n0) true); [|apply IH; exact Hin].
+    destruct (set_argument f a0 n0 v0) as [a'|k]; cbn [bind]; [apply IH; exact Hin|eauto].
+Qed.
+
+Lemma set_option_bad f a0 n v : bad_opt f n v -> exists k, set_option f a0 n v = Err k.
+Proof.
+  intros (_ & o & Hg & Hv). unfold set_option. rewrite Hg. cbn [bind].
+  destruct v as [s| |d|l]; try contradiction.
+  - destruct Hv as (-> & -> & k & Hk). cbn [parse_raw_opt]. rewrite Hk. cbn [bind]. eauto.
+  - destruct Hv as (-> & s & k & Hin & Hk). destruct (parse_each_bad _ _ _ _ l Hin Hk) as [k' ->]. cbn [bind]. eauto.
+Qed.
+Lemma set_options_bad f n v : bad_opt f n v -> forall l a0, In (n, v) l -> exists k, set_options f a0 l = Err k.
+Proof.
+  intros Hb. induction l as [|[n0 v0] r IH]; intros a0 Hin; [contradiction|]. cbn [set_options].
+  destruct Hin as [Heq|Hin].
+  - inversion Heq; subst. destruct Hb as [Hh Hb']. rewrite Hh.
+    destruct (set_option_bad f a0 n v (conj Hh Hb')) as [k ->]. cbn [bind]. eauto.
+  - destruct (has_option f n0 true); [|apply IH; exact Hin].
+    destruct (set_option f a0 n0 v0) as [a'|k]; cbn [bind]; [apply IH; exact Hin|eauto].
+Qed.
+
+(* GENERAL FORM, arguments: the line gets through the token loop, the re-alignment and the
+   required-argument check, and one of the values then stored for an argument does not convert *)
+Theorem bad_argument_value f f' ar cns toks st1 st2 n v :
+  aug_format f = Ok (f', ar, cns) -> scans f' toks st1 ->
+  insert_missing ar cns false st1 = Ok st2 -> missing_required ar st2 = false ->
+  In (n, v) (ps_args st2) -> bad_arg f n v ->
+  parse f false toks = Err ValueError.
+Proof.
+  intros Ha Hs Hi Hm Hin Hb. rewrite (parse_after_scan _ _ _ _ _ _ Ha Hs), Hi, Hm.
+  destruct (set_arguments_bad f n v Hb _ {| ar_opts := []; ar_args := [] |} Hin) as [k Hk].
+  rewrite Hk. cbn [bind]. rewrite (set_arguments_err _ _ _ _ Hk). reflexivity.
+Qed.
+
+(* GENERAL FORM, options *)
+Theorem bad_option_value f f' ar cns toks st1 st2 n v :
+  aug_format f = Ok (f', ar, cns) -> opts_ok f' -> scans f' toks st1 ->
+  insert_missing ar cns false st1 = Ok st2 -> missing_required ar st2 = false ->
+  In (n, v) (ps_opts st1) -> bad_opt f n v ->
+  parse f false toks = Err ValueError.
+Proof.
+  intros Ha Hok Hs Hi Hm Hin Hb. rewrite (parse_after_scan _ _ _ _ _ _ Ha Hs), Hi, Hm.
+  pose proof (insert_missing_spec ar cns false st1) as Ho. rewrite Hi in Ho.
+  destruct (loop_spec f' false Hok (S (length toks)) true ps_empty toks st_plain_empty ltac:(lia)) as [Hp _].
+  unfold scans in Hs. rewrite Hs in Hp. cbn [fst] in Hp.
+  destruct (set_arguments f _ (ps_args st2)) as [a1|k] eqn:Ea; cbn [bind].
+  - rewrite <- Ho in Hin. destruct (set_options_bad f n v Hb _ a1 Hin) as [k Hk]. rewrite Hk.
+    rewrite (set_options_err f (ps_opts st2) a1 k); [reflexivity| |exact Hk].
+    intros n0 d Hd. rewrite Ho in Hd. eapply Hp; eauto.
+  - rewrite (set_arguments_err _ _ _ _ Ea). reflexivity.
+Qed.
+
+(* LAST-TOKEN FORM: pre is a line the strict parser accepts; "--name=value" is put behind it, value
+   not convertible to the type of option name.  No hypothesis on the other options. *)
+Lemma reach_trans f len p0 st0 t0 p1 st1 t1 p2 st2 t2 :
+  reach f len p0 st0 t0 p1 st1 t1 -> reach f len p1 st1 t1 p2 st2 t2 -> reach f len p0 st0 t0 p2 st2 t2.
+Proof. induction 1; [auto|]. intros H2. eapply reach_next; eauto. Qed.
+
+Lemma parse_ok_inv f f' ar cns toks r :
+  aug_format f = Ok (f', ar, cns) -> parse f false toks = Ok r ->
+  exists st1 st2 a1, scans f' toks st1 /\ insert_missing ar cns false st1 = Ok st2 /\
+    missing_required ar st2 = false /\
+    set_arguments f {| ar_opts := []; ar_args := [] |} (ps_args st2) = Ok a1 /\
+    set_options f a1 (ps_opts st2) = Ok r.
+Proof.
+  intros Ha. unfold parse, parse_on. rewrite Ha.
+  destruct (loop (S (length toks)) f' false true ps_empty toks) as [st1 e] eqn:El.
+  destruct e as [k|]; [destruct k; cbn; discriminate|].
+  destruct (insert_missing ar cns false st1) as [st2|k] eqn:Ei; [|cbn; discriminate].
+  destruct (missing_required ar st2) eqn:Em; cbn [andb negb snd]; [discriminate|].
+  destruct (set_arguments f _ (ps_args st2)) as [a1|k] eqn:Ea; cbn [bind]; [|discriminate].
+  intros H. exists st1, st2, a1. repeat split; auto.
+Qed.
+
+Lemma insert_missing_same_args ar cns len st st' st2 :
+  insert_missing ar cns len st = Ok st2 -> ps_args st' = ps_args st ->
+  insert_missing ar cns len st' = Ok {| ps_args := ps_args st2; ps_opts := ps_opts st' |}.
+Proof.
+  unfold insert_missing. intros H ->.
+  destruct (skip_names (flatten (ps_args st)) cns 0) as [[vals' cns'] k].
+  destruct (copy_values vals' _ len _) as [fx|k0]; cbn [bind] in *; [|discriminate].
+  inversion H; subst. reflexivity.
+Qed.
+
+Lemma set_options_sset_bad f name value o k0 :
+  has_option f name true = true -> get_option f name true = Ok o -> o_multi o = false -> o_accepts o = true ->
+  parse_typed (o_type o) (o_nullable o) (VStr value) = Err k0 ->
+  forall l a r, set_options f a l = Ok r -> set_options f a (sset name (OStr value) l) = Err ValueError.
+Proof.
+  intros Hh Hg Hm Hacc Hk.
+  assert (forall a l', set_options f a ((name, OStr value) :: l') = Err ValueError) as Hhead.
+  { intros a l'. cbn [set_options]. rewrite Hh. unfold set_option. rewrite Hg. cbn [bind].
+    rewrite Hm, Hacc. cbn [parse_raw_opt]. rewrite Hk. cbn [bind]. rewrite (parse_typed_str _ _ _ _ Hk). reflexivity. }
+  induction l as [|[n0 x] l IH]; intros a r Hr; unfold sset; cbn [aset]; [apply Hhead|].
+  destruct (str_eqb_spec name n0) as [<-|Hne]; [apply Hhead|].
+  cbn [set_options] in *. destruct (has_option f n0 true); [|apply (IH _ _ Hr)].
+  destruct (set_option f a n0 x) as [a'|k]; cbn [bind] in *; [apply (IH _ _ Hr)|discriminate].
+Qed.
+
+Lemma step_long_eq_value f len st name value rest o :
+  no_eq name = true -> value <> [] ->
+  has_option f name true = true -> get_option f name true = Ok o -> o_accepts o = true -> o_multi o = false ->
+  step f len true st (long_tok (name ++ EQ :: value)) rest =
+    Ok (true, {| ps_args := ps_args st; ps_opts := sset name (OStr value) (ps_opts st) |}, rest).
+Proof.
+  intros Hq Hv Hh Hg Hacc Hm. rewrite long_tok_dispatch by (destruct name; discriminate).
+  unfold parse_long_option, long_tok. cbn [skipn]. rewrite (split_eq_found name value [] Hq). cbn [rev app].
+  rewrite add_long_eq, Hh, Hg. cbn [negb bind]. rewrite Hacc. cbn [negb look fst snd]. unfold store.
+  destruct value as [|c v]; [contradiction|]. rewrite Hm. reflexivity.
+Qed.
+
+Theorem bad_option_value_last f f' ar cns pre r name value o' o k0 :
+  aug_format f = Ok (f', ar, cns) ->
+  parse f false pre = Ok r -> existsb is_dd pre = false ->
+  no_eq name = true -> value <> [] ->
+  (* the option as the augmented format knows it: takes a value, single-valued *)
+  has_option f' name true = true -> get_option f' name true = Ok o' -> o_accepts o' = true -> o_multi o' = false ->
+  (* the option as the format itself knows it, and the conversion that fails *)
+  has_option f name true = true -> get_option f name true = Ok o -> o_accepts o = true -> o_multi o = false ->
+  parse_typed (o_type o) (o_nullable o) (VStr value) = Err k0 ->
+  parse f false (pre ++ [long_tok (name ++ EQ :: value)]) = Err ValueError.
+Proof.
+  intros Ha Hok Hdd Hq Hv Hh' Hg' Hacc' Hm' Hh Hg Hacc Hm Hk.
+  destruct (parse_ok_inv _ _ _ _ _ _ Ha Hok) as (st1 & st2 & a1 & Hs & Hi & Hmiss & Hsa & Hso).
+  set (tok := long_tok (name ++ EQ :: value)).
+  set (st1' := {| ps_args := ps_args st1; ps_opts := sset name (OStr value) (ps_opts st1) |}).
+  assert (scans f' (pre ++ [tok]) st1') as Hs'.
+  { eapply reach_scans, reach_trans; [apply (scans_reach f' pre st1 tok [] Hs Hdd (dashy_long _))|].
+    eapply reach_next; [|apply reach_here]. apply (step_long_eq_value f' false st1 name value [] o'); assumption. }
+  rewrite (parse_after_scan _ _ _ _ _ _ Ha Hs').
+  rewrite (insert_missing_same_args ar cns false st1 st1' st2 Hi eq_refl).
+  unfold missing_required in *. cbn [ps_args ps_opts]. rewrite Hmiss, Hsa. cbn [bind]. unfold st1'. cbn [ps_opts].
+  pose proof (insert_missing_spec ar cns false st1) as Ho. rewrite Hi in Ho. rewrite Ho in Hso.
+  eapply set_options_sset_bad; eauto.
+Qed.
+
+(* a line whose conversion fails is rejected with the same ValueError in lenient mode *)
+Lemma modes_agree_after_scan f f' ar cns toks st1 st2 :
+  aug_format f = Ok (f', ar, cns) -> scans f' toks st1 ->
+  insert_missing ar cns false st1 = Ok st2 -> missing_required ar st2 = false ->
+  parse f true toks = parse f false toks.
+Proof.
+  intros Ha Hs Hi Hm. rewrite (parse_after_scan _ _ _ _ _ _ Ha Hs), Hi, Hm.
+  unfold parse, parse_on. rewrite Ha. unfold scans in Hs. rewrite (loop_mono _ _ _ _ _ _ Hs).
+  rewrite (insert_missing_mono _ _ _ _ Hi), Hm. reflexivity.
+Qed.
+
+(* ================= 8. lenient counterparts ================= *)
+(* decidable sufficient condition for opts_ok (used by the examples) *)
+Definition opt_ok_b (o : opt) : bool := (negb (o_multi o) || o_required o) && conv_input (o_default o).
+Fixpoint opts_ok_b (f : fmt) : bool :=
+  match f with Fmt b _ _ _ _ os oss _ _ =>
+    forallb (fun no => opt_ok_b (snd no)) os && forallb (fun no => opt_ok_b (snd no)) oss &&
+    match b with Some bf => opts_ok_b bf | None => true end end.
+Lemma opts_ok_b_ok f : opts_ok_b f = true -> opts_ok f.
+Proof.
+  unfold opts_ok. cbn [get_option].
+  induction f as [cn co cs ar os oss hm ho|bf cn co cs ar os oss hm ho IH] using fmt_ind';
+    cbn [opts_ok_b get_option_all]; intros H n o Hg;
+    apply andb_prop in H as [H Hb]; apply andb_prop in H as [H1 H2]; rewrite forallb_forall in H1, H2.
+  all: assert (opt_ok_b o = true -> (o_multi o = true -> o_required o = true) /\ conv_input (o_default o) = true) as Hfin
+    by (unfold opt_ok_b; intros Hx; apply andb_prop in Hx as [Hx1 Hx2]; split; [|exact Hx2];
+        intros Hmu; rewrite Hmu in Hx1; exact Hx1).
+  all: destruct (sget n os) as [o1|] eqn:E1; [inversion Hg; subst; apply Hfin, (H1 (n, o)), sget_in, E1|].
+  all: destruct (sget n oss) as [o2|] eqn:E2; [inversion Hg; subst; apply Hfin, (H2 (n, o)), sget_in, E2|].
+  - discriminate.
+  - eapply IH; eauto.
+Qed.
+
+(* no line whatsoever ends in a parse error in lenient mode; in particular none of clauses 1-5 *)
+Theorem lenient_no_parse_error f f' ar cns toks :
+  aug_format f = Ok (f', ar, cns) -> opts_ok f' ->
+  parse f true toks <> Err NoSuchOption /\ parse f true toks <> Err CannotParse.
+Proof.
+  intros Ha Hok. split; intros H; destruct (parse_error_kinds f true toks f' ar cns Ha Hok _ H) as [_ Hv];
+    specialize (Hv eq_refl); discriminate.
+Qed.
+
+Open Scope string_scope.
+Lemma ex_f_opts_ok : opts_ok ex_f'.  Proof. apply opts_ok_b_ok. vm_compute. reflexivity. Qed.
+Definition realigned (ar : list (str * arg)) (cns : list (str * cname)) (st : pstate) : pstate :=
+  match insert_missing ar cns false st with Ok s => s | Err _ => st end.
+
+Example ex_bad_argument_value : parse ex_f false (T ["server"; "add"; "x"; "--verbose"; "abc"]) = Err ValueError.
+Proof.
+  pose (st1 := scan_st ex_f' (T ["server"; "add"; "x"; "--verbose"; "abc"])).
+  apply (bad_argument_value ex_f ex_f' ex_far ex_fcn _ st1 (realigned ex_far ex_fcn st1) (S_ "count") (RStr (S_ "abc")) ex_f_aug).
+  - vm_compute. reflexivity.
+  - vm_compute. reflexivity.
+  - vm_compute. reflexivity.
+  - vm_compute. tauto.
+  - split; [vm_compute; reflexivity|]. eexists. split; [vm_compute; reflexivity|].
+    split; [vm_compute; reflexivity|]. eexists. vm_compute. reflexivity.
+Qed.
+Example ex_bad_option_value : parse ex_f false (T ["x"; "--num=abc"; "--verbose"]) = Err ValueError.
+Proof.
+  pose (st1 := scan_st ex_f' (T ["x"; "--num=abc"; "--verbose"])).
+  apply (bad_option_value ex_f ex_f' ex_far ex_fcn _ st1 (realigned ex_far ex_fcn st1) (S_ "num") (OStr (S_ "abc")) ex_f_aug ex_f_opts_ok).
+  - vm_compute. reflexivity.
+  - vm_compute. reflexivity.
+  - vm_compute. reflexivity.
+  - vm_compute. tauto.
+  - split; [vm_compute; reflexivity|]. eexists. split; [vm_compute; reflexivity|].
+    split; [vm_compute; reflexivity|]. split; [vm_compute; reflexivity|]. eexists. vm_compute. reflexivity.
+Qed.
+Example ex_bad_option_value_short_form : parse ex_f false (T ["x"; "-vn"; "1.5"]) = Err ValueError.
+Proof.
+  pose (st1 := scan_st ex_f' (T ["x"; "-vn"; "1.5"])).
+  apply (bad_option_value ex_f ex_f' ex_far ex_fcn _ st1 (realigned ex_far ex_fcn st1) (S_ "num") (OStr (S_ "1.5")) ex_f_aug ex_f_opts_ok).
+  - vm_compute. reflexivity.
+  - vm_compute. reflexivity.
+  - vm_compute. reflexivity.
+  - vm_compute. tauto.
+  - split; [vm_compute; reflexivity|]. eexists. split; [vm_compute; reflexivity|].
+    split; [vm_compute; reflexivity|]. split; [vm_compute; reflexivity|]. eexists. vm_compute. reflexivity.
+Qed.
+Example ex_bad_option_value_last : parse ex_f false (T ["x"; "-v"; "--num=abc"]) = Err ValueError.
+Proof.
+  eapply (bad_option_value_last ex_f ex_f' ex_far ex_fcn (T ["x"; "-v"]) _ (S_ "num") (S_ "abc") _ _ _ ex_f_aug);
+    try (vm_compute; reflexivity). discriminate.
+Qed.
+Example ex_bad_value_lenient : parse ex_f true (T ["x"; "--num=abc"; "--verbose"]) = Err ValueError.
+Proof.
+  pose (st1 := scan_st ex_f' (T ["x"; "--num=abc"; "--verbose"])).
+  rewrite (modes_agree_after_scan ex_f ex_f' ex_far ex_fcn _ st1 (realigned ex_far ex_fcn st1) ex_f_aug);
+    [exact ex_bad_option_value|vm_compute; reflexivity..].
+Qed.
+Example ex_lenient : parse ex_f true (T ["x"; "2"; "y"; "--nope"; "--verbose=1"; "--num"]) <> Err NoSuchOption /\
+                     parse ex_f true (T ["x"; "2"; "y"; "--nope"; "--verbose=1"; "--num"]) <> Err CannotParse.
+Proof. exact (lenient_no_parse_error ex_f ex_f' ex_far ex_fcn _ ex_f_aug ex_f_opts_ok). Qed.
+Close Scope string_scope.
